@@ -54,13 +54,14 @@ class Corpus:
 
 
 def run_set(seed, wild=False, gen_texts=True, n_modules=None, size=None, backends=('json', 'pysnmp'), mutate=None, nasty=False,
-            text_filter=None, chains=True, exotic_defvals=False):
+            text_filter=None, chains=True, exotic_defvals=False, pysnmp_safe=False):
     """one generated module set through the pipeline; returns an observation dict"""
     rng = random.Random(seed)
     g = mibgen.SetGen(rng, n_modules=n_modules, size=size)
     g.nasty = nasty
     g.chains = chains
     g.exotic_defvals = exotic_defvals
+    g.pysnmp_safe = pysnmp_safe
     g.build()
     if mutate:
         mutate(g, rng)
